@@ -41,19 +41,46 @@ func H_compress_hist() {
 	d2 := vfBytes("d2", dl)
 	var m1, m2 int
 	var e1, e2 error
+	// optional third step in between: a tiny source (too short to hold a match)
+	var mid, dmid []byte
+	if nmid := vfParam("nmid"); nmid >= 0 {
+		mid = vfBytes("mid", nmid)
+		dmid = make([]byte, CompressBlockBound(nmid))
+	}
 	if kind == 0 {
 		var c, f Compressor
 		c.CompressBlock(src0, d0)
+		if dmid != nil {
+			c.CompressBlock(mid, dmid)
+		}
 		m1, e1 = c.CompressBlock(src, d1)
 		m2, e2 = f.CompressBlock(src, d2)
 	} else {
 		var c, f CompressorHC
 		c.CompressBlock(src0, d0, CompressionLevel(depth))
+		if dmid != nil {
+			c.CompressBlock(mid, dmid, CompressionLevel(depth))
+		}
 		m1, e1 = c.CompressBlock(src, d1, CompressionLevel(depth))
 		m2, e2 = f.CompressBlock(src, d2, CompressionLevel(depth))
 	}
 	vfNote("m1", m1)
 	vfNote("m2", m2)
+	// C01 for a reused object with a real history: success at the bound and round trip
+	if dl >= CompressBlockBound(len(src)) {
+		vfAssert("roundtrip-hist-bound-size-succeeds", vfAnd(m1 > 0, e1 == nil))
+	}
+	if m1 > 0 {
+		mm := vfConc(m1)
+		if mm > 0 {
+			if mm <= dl {
+				back := make([]byte, len(src))
+				r, derr := UncompressBlock(d1[:mm], back, nil)
+				vfAssert("roundtrip-hist-decodes", vfAnd(derr == nil, r == len(src)))
+				vfAssert("roundtrip-hist-bytes", vfEqBytes(back, src))
+			}
+		}
+	}
 	vfAssert("hist-same-count", m1 == m2)
 	vfAssert("hist-same-error", (e1 == nil) == (e2 == nil))
 	k := vfConc(m1)
